@@ -245,8 +245,42 @@ theorem rescale_err (D S : Int) (hS : 0 < S) (xs : List Int) :
 
 example : rescaleMask 8 3 [10, -10, 1] = [26, -26, 2] := by decide
 
+/-- **min_level_spec.** The level returned by (the exact-arithmetic model of)
+    `GetMinimumLevelForRefresh` is the SMALLEST level whose modulus reaches
+    `2^(logBound + ⌈log2 nParties⌉)`; in particular `Q_minLevel ≥ nParties·2^logBound`: the sum of the
+    `nParties` masks of `logBound` bits (each in `[−2^(logBound−1), 2^(logBound−1))`) does not wrap. -/
+theorem min_level_spec (lambda scale nParties : Nat) (moduli : List Nat) (L : Nat) (lb : Nat)
+    (h : minLevelForRefresh lambda scale nParties moduli = some ((L : Int), lb)) :
+    lb = lambda + clog2 scale ∧
+    nParties * 2 ^ lb ≤ (moduli.take (L + 1)).prod ∧
+    (moduli.take L).prod < 2 ^ (lb + clog2 nParties) := by
+  unfold minLevelForRefresh at h
+  simp only at h
+  split at h
+  · simp at h
+  · rename_i k hk
+    simp only [Option.some.injEq, Prod.mk.injEq] at h
+    obtain ⟨hL, hlb⟩ := h
+    have hk1 : k = L + 1 := by omega
+    subst hk1
+    obtain ⟨h1, h2⟩ := primesNeeded_sound moduli _ 1 (L + 1) hk
+    refine ⟨hlb.symm, ?_, ?_⟩
+    · rw [← hlb]
+      calc nParties * 2 ^ (lambda + clog2 scale)
+          ≤ 2 ^ clog2 nParties * 2 ^ (lambda + clog2 scale) :=
+            Nat.mul_le_mul_right _ (le_two_pow_clog2 nParties)
+        _ = 2 ^ (lambda + clog2 scale + clog2 nParties) := by
+            rw [Nat.pow_add (2) (lambda + clog2 scale) (clog2 nParties), Nat.mul_comm]
+        _ ≤ _ := by simpa using h1
+    · rw [← hlb]
+      simpa using h2 (Nat.succ_pos _)
+
+/-- three parties, 40-bit masks: a 41.x-bit first prime is NOT enough (⌈log2 3⌉ = 2), level 1 is -/
+example : minLevelForRefresh 30 1024 3 [2199023255579, 1073741827] = some (1, 40) := by decide +kernel
+
 end Lattigo.Props.C16
 
+#print axioms Lattigo.Props.C16.min_level_spec
 #print axioms Lattigo.Props.C16.cks_collective
 #print axioms Lattigo.Props.C16.cks_phase
 #print axioms Lattigo.Props.C16.cks_decrypt
